@@ -215,3 +215,62 @@ FACETS = [
           shards={'quick': 4, 'thorough': 16}, budget={'quick': 150, 'thorough': 3000}, backend='torch'),
     Facet('torch/random-triples', f_triple, strategy=lambda t: st_triple('torch', 4), examples={'quick': 200, 'thorough': 8000}, shards={'quick': 1, 'thorough': 4}, backend='torch'),
 ]
+
+
+def f_history(case):
+    """one CliffordMap object through a history of queries (inverse / compose / copy / to_state) and in-place changes (rotate_by, transform_by,
+    sign flip, embed): every query must answer for the map's *current* value (no stale caches), and never change it."""
+    be, N = case['be'], case['N']
+    Bk = B.backend(be)
+    cur = C.dec_clifford(case['rows'])
+    M = Bk.cmap(cur)
+    nq = nm = 0
+    for i, stp in enumerate(case['steps']):
+        t = stp['t']
+        if t == 'inverse':
+            got = _read_map(Bk, M.inverse()); exp = cur.inverse(); nq += 1
+            check(_eq(got, exp), 'step %d: inverse() after %d in-place changes = %s expected %s' % (i, nm, got.rows(), exp.rows()), 'history-inverse')
+        elif t == 'compose':
+            o = C.dec_clifford(stp['rows'])
+            got = _read_map(Bk, M.compose(Bk.cmap(o))); exp = cur.compose(o); nq += 1
+            check(_eq(got, exp), 'step %d: compose after %d in-place changes wrong' % (i, nm), 'history-compose')
+            got = _read_map(Bk, Bk.cmap(o).compose(M)); exp = o.compose(cur)
+            check(_eq(got, exp), 'step %d: compose (as second operand) after %d in-place changes wrong' % (i, nm), 'history-compose')
+        elif t == 'copy':
+            got = _read_map(Bk, M.copy()); nq += 1
+            check(_eq(got, cur), 'step %d: copy() differs from the current map' % i, 'history-copy')
+        elif t == 'rotate':
+            gl, gk = ref.parse(stp['gen'])
+            M.rotate_by(Bk.pauli(gl, gk)); nm += 1
+            L, K = ref.rotate_rule(cur.L, cur.K, gl, gk)
+            cur = ref.RefClifford(L, K)
+        elif t == 'transform':
+            o = C.dec_clifford(stp['rows'])
+            M.transform_by(Bk.cmap(o)); nm += 1
+            cur = cur.compose(o)
+        elif t == 'flip':
+            j = stp['j'] % (2 * N)
+            M.ps[j] = (M.ps[j] + 2) % 4; nm += 1
+            K = cur.K.copy(); K[j] = (K[j] + 2) % 4
+            cur = ref.RefClifford(cur.L, K)
+        got = _read_map(Bk, M)
+        check(_eq(got, cur), 'step %d (%s): map value is %s expected %s' % (i, t, got.rows(), cur.rows()), 'history-value')
+    ts = [x['t'] for x in case['steps']]
+    inv = [i for i, x in enumerate(ts) if x == 'inverse']
+    nt = len(inv) >= 2 and any(x in ('rotate', 'transform', 'flip') for x in ts[inv[0]:inv[-1]])
+    return {'nt': nt, 'labels': ['N=%d' % N, 'queries=%d' % min(nq, 6), 'mutations=%d' % min(nm, 6)]}
+
+
+def st_history(be, hiN):
+    def inner(N):
+        step = st.one_of(st.just({'t': 'inverse'}), st.just({'t': 'inverse'}), st.just({'t': 'copy'}),
+                         st.fixed_dictionaries({'t': st.just('compose'), 'rows': gen.st_clifford_rows(N)}),
+                         st.fixed_dictionaries({'t': st.just('rotate'), 'gen': gen.st_herm(N, nonidentity=True)}),
+                         st.fixed_dictionaries({'t': st.just('transform'), 'rows': gen.st_clifford_rows(N)}),
+                         st.fixed_dictionaries({'t': st.just('flip'), 'j': st.integers(0, 11)}))
+        return st.fixed_dictionaries({'be': st.just(be), 'N': st.just(N), 'rows': gen.st_clifford_rows(N), 'steps': st.lists(step, min_size=2, max_size=9)})
+    return st.integers(1, hiN).flatmap(inner)
+
+
+FACETS.append(Facet('np/map-histories', f_history, strategy=lambda t: st_history('np', 4), examples={'quick': 1200, 'thorough': 50000}, shards={'quick': 2, 'thorough': 8}))
+FACETS.append(Facet('torch/map-histories', f_history, strategy=lambda t: st_history('torch', 3), examples={'quick': 150, 'thorough': 6000}, shards={'quick': 1, 'thorough': 4}, backend='torch'))
